@@ -153,8 +153,8 @@ impl Prop for C01 {
     }
     fn runs(&self, tier: Tier) -> u64 {
         match tier {
-            Tier::Quick => self.n_pairs() * 4 + self.n_pairs() * 4 + 6_000,
-            Tier::Thorough => self.n_pairs() * 16 + self.n_pairs() * 4 * 4 + 300_000,
+            Tier::Quick => self.n_pairs() * 4 + self.n_pairs() * 4 + 150_000,
+            Tier::Thorough => self.n_pairs() * 16 + self.n_pairs() * 4 * 4 + 4_000_000,
         }
     }
     fn generate(&self, i: u64, r: &mut Rng, tier: Tier) -> Scenario {
